@@ -135,6 +135,16 @@ pub fn run_eval(text: &str, opts: &RunOpts) -> Value {
     let mut bytecode: Option<Value> = None;
     let want_bc = opts.bytecode;
     let r = catch_unwind(AssertUnwindSafe(|| -> Result<(Value, Vec<u64>), Error> {
+        if !want_bc {
+            // the public entry point itself (src/lib.rs)
+            let obj = nederlang::eval(text)?;
+            let v = proj::unfold(obj, UNFOLD_DEPTH);
+            let ids = proj::graph_ids(obj);
+            if opts.release {
+                proj::release(obj);
+            }
+            return Ok((v, ids));
+        }
         // the same pipeline as nederlang::eval, spelled out so that the bytecode can be observed
         let ast = nederlang::parser::parse(text)?;
         let code = Compiler::new().compile_ast(&ast)?;
